@@ -21,6 +21,9 @@ type c12Case struct {
 	T   string `json:"type"`
 	C   int
 	Ops []wop `json:"ops"`
+	// ValSet: every special value written with SetSample over a cell holding every other one, read back
+	// through the buffer and through a window of it, by bit pattern (valpass.go); no history
+	ValSet bool `json:"val_set,omitempty"`
 }
 
 type c12Cfg struct {
@@ -36,6 +39,9 @@ type c12Cfg struct {
 
 func c12Replay(cs c12Case, checkFrom int) (w *world, fs []F) {
 	w = newWorld(typeByName(cs.T), cs.C)
+	if cs.ValSet {
+		return w, core.Guard("views", func() []F { return valSetSample(typeByName(cs.T), cs.C) })
+	}
 	fs = core.Guard("views", func() []F { return w.run(cs.Ops, checkFrom) })
 	for i := range fs {
 		fs[i].Msg = fmt.Sprintf("[%s C=%d] history %v :: %s", cs.T, cs.C, cs.Ops, fs[i].Msg)
@@ -434,6 +440,14 @@ func init() {
 			c.Set("evaluations", trans)
 			c.Set("configs", report)
 			c.Set("canonicalisation_recheck", map[string]any{"quotient_states": q.states, "raw_states": raw.states})
+			// writes of special values (the tokens of the histories are small positive numbers and 0)
+			for _, t := range valTypes() {
+				for C := 1; C <= 2; C++ {
+					cs := c12Case{T: tn(t), C: C, ValSet: true}
+					_, fs := c12Replay(cs, 0)
+					c.Check(cs, true, fs)
+				}
+			}
 			c.Set("rule", "breadth-first search over histories of {alloc(L,K), slice(v,s,e) for every valid range of every live view, append(v,w) for every ordered pair incl. v=w (frame-aligned, not overwriting its own source), appendSample(v), write(v) of fresh tokens, set(v,i)}; each transition replays the path on fresh real buffers, applies the operation to implementation and model and compares every live view (shape and every sample over its capacity) and every storage; states deduplicated by a canonical key of the model state; distinct_nontrivial = states")
 			c.Set("distinct_nontrivial", states)
 			c.Assume("values are tokens; value canonicalisation is sound because the alphabet is data-independent (re-checked on the low levels without it)", "capacity after a growing append is an environment answer", "Append onto a destination with a partly filled last frame is outside the domain of every listed property and not in the alphabet")
@@ -444,6 +458,9 @@ func init() {
 		},
 		GoTest: func(raw json.RawMessage) string {
 			cs := decode[c12Case](raw)
+			if cs.ValSet {
+				return ""
+			}
 			return worldGoTest(cs.T, cs.C, cs.Ops)
 		},
 	})
